@@ -1542,11 +1542,20 @@ func init() {
 func ruleI13(c *Ctx) {
 	n := 0
 	for _, name := range []string{"Int.Div", "Int.Mod"} {
-		fn := c.P.Func("starlark", name)
-		if fn == nil {
+		root := c.P.Func("starlark", name)
+		if root == nil {
 			c.anchorFail("starlark.%s not found", name)
 			continue
 		}
+		fns := []*ssa.Function{root}
+		eachInstr(root, func(in ssa.Instruction) {
+			if call, ok := in.(*ssa.Call); ok {
+				if cal := call.Call.StaticCallee(); cal != nil && cal.Blocks != nil && relPkg(fnPkgPath(cal)) == "starlark" && cal.Object() != nil && !cal.Object().Exported() && cal != root {
+					fns = append(fns, cal)
+				}
+			}
+		})
+		for _, fn := range fns {
 		eachInstr(fn, func(in ssa.Instruction) {
 			call, ok := in.(*ssa.Call)
 			if !ok {
@@ -1588,6 +1597,10 @@ func ruleI13(c *Ctx) {
 								}
 							}
 						}
+						// a helper that receives the operands as *big.Int parameters
+						if p, ok := b.v.(*ssa.Parameter); ok && len(tr.fields) == 0 {
+							signOf[p.Name()] = true
+						}
 					}
 				}
 			}
@@ -1597,6 +1610,7 @@ func ruleI13(c *Ctx) {
 				c.viol(key, c.P.Pos(call.Pos()), fmt.Sprintf("the floor correction in the big-number arm of %s is not guarded by the signs of both operands (found the sign of %d operand(s)): when the truncated quotient is zero but the operands' signs differ, the result is off by one", name, len(signOf)))
 			}
 		})
+		}
 	}
 	if n < 2 {
 		c.anchorFail("only %d big-arm floor corrections found in Int.Div/Int.Mod", n)
